@@ -264,6 +264,10 @@ func (matrix *SparseReal32Matrix) T() Matrix {
   return matrix.MagicT()
 }
 func (matrix *SparseReal32Matrix) Tip() {
+  if matrix.rows != matrix.rowMax || matrix.cols != matrix.colMax {
+    // the cycles of an in-place transposition run over the whole storage
+    panic("Tip(): in-place transposition of a matrix view is not supported")
+  }
   mn := matrix.values.Dim()
   visited := make([]bool, mn)
   k := 0
